@@ -43,6 +43,16 @@ def scenarios(rng, tier):
     for nj in jobs:
         out.append(("ok-dense", nj, lambda nj=nj: NNDescent(X, n_neighbors=5, n_jobs=nj, random_state=1)))
         out.append(("ok-dense-prepare", nj, lambda nj=nj: NNDescent(X, n_neighbors=5, n_jobs=nj, random_state=1).prepare()))
+        # configurations: every switch that adds work inside the thread-limited region of the constructor / of prepare
+        out.append(("ok-dense-compressed", nj, lambda nj=nj: NNDescent(X, n_neighbors=5, n_jobs=nj, random_state=1, compressed=True)))
+        out.append(("ok-sparse-compressed-prepare", nj,
+                    lambda nj=nj: NNDescent(S, metric="cosine", n_neighbors=5, n_jobs=nj, random_state=1, compressed=True).prepare()))
+        cfg = dict(compressed=bool(rng.integers(2)), low_memory=bool(rng.integers(2)), tree_init=bool(rng.integers(2)),
+                   metric=str(rng.choice(["euclidean", "cosine", "manhattan", "dot"])), parallel_batch_queries=bool(rng.integers(2)))
+        out.append(("ok-config-%s" % "-".join("%s=%s" % kv for kv in sorted(cfg.items())), nj,
+                    lambda nj=nj, cfg=cfg: NNDescent(X if rng.integers(2) else S, n_neighbors=5, n_jobs=nj, random_state=1, **cfg).prepare()))
+        out.append(("ok-transformer-fit-transform", nj,
+                    lambda nj=nj: pynndescent.PyNNDescentTransformer(n_neighbors=5, n_jobs=nj, random_state=1).fit(X).transform(X_QUERY)))
         out.append(("fail-sparse-unsupported-metric", nj,
                     lambda nj=nj: NNDescent(S, metric="mahalanobis", n_neighbors=5, n_jobs=nj, random_state=1)))
         out.append(("fail-init-graph-size", nj,
@@ -122,7 +132,7 @@ def run(res, tier, seed, search):
                 "invalid n_jobs} x entry thread counts; non-trivial = raised after the count was lowered (observed through the "
                 "recorded set_num_threads calls); distinct = (scenario, n_jobs, entry count)")
     maxt = numba.config.NUMBA_NUM_THREADS
-    starts = [maxt] if tier == "quick" and not search else [maxt, max(1, maxt // 2), 4]
+    starts = [maxt, max(1, maxt // 2)] if tier == "quick" and not search else [maxt, max(1, maxt // 2), 4]
     for start in starts:
         for name, nj, thunk in scenarios(rng, tier):
             run_one(res, name, nj, thunk, min(start, maxt))
